@@ -652,7 +652,20 @@ def r7(ctx, r):
         raise AnalysisBroken("only %d functions reachable from the WebSocket data callbacks (floor 12)" % n)
 
 
+def anchors(ctx, r):
+    tab = [(wf(ctx, "parse"), ["pos", "data", "byte0", "byte1", "consumed", "payloadLen"]), (wf(ctx, "serialize"), ["byte0", "byte1", "out"]),
+           (fnc(ctx, WS, "onUpgradedData", WSF), ["localBuffer", "offset", "consumed", "view", "remainder"]), (fnc(ctx, WC, "handleData", WCF), ["localBuffer", "offset", "consumed", "view", "remainder"]),
+           (fnc(ctx, WS, "handleDataFrame", WSF), ["tooLarge", "frame"]), (fnc(ctx, WC, "handleDataFrame", WCF), ["tooLarge", "frame"])]
+    for f, names in tab:
+        common.require_names(f, names)
+        r.instance()
+        r.ok("%s: %s" % (last(f.name), ", ".join(names)))
+
+
 def run(ctx, ck):
+    r0 = ck.run_rule("C18-R0", "the local names the rules are anchored on exist (a rename makes the analysis refuse — exit 2 — instead of raising a false alarm)", "anchor table", lambda r: anchors(ctx, r))
+    if r0.broken:
+        return
     ck.run_rule("C18-R1", "frame decoder stays inside the bytes present; peer length admitted only in subtraction form", "A7 cursor-window abstract interpretation with a symbolic length", lambda r: r1(ctx, r))
     ck.run_rule("C18-R2", "encoder and decoder tables agree (bit masks, length codes/thresholds, byte order, masking)", "A10 table extraction", lambda r: r2(ctx, r))
     ck.run_rule("C18-R3", "every buffer fed by the network is limit-tested before the function returns; overflow ends the session", "A8 + A5", lambda r: r3(ctx, r))
